@@ -5,6 +5,7 @@ from .isomsg import *
 from .c01 import family_pairs, class_mixes, GENERIC, check_codecs
 
 PROPERTY = 'C02'
+PYTHON_O = ['single/enc/latin_1/bin', 'single/dec/latin_1/bin']      # obligations that are also explored with the modules compiled as under python -O
 ASSUMPTIONS = [
     'element subsets concrete from a family (every single element, pairs, class mixes); lengths / numeric values / content symbolic',
     'reference layout written from the documentation (harness/isomsg.py: Elem.layout, bitmap_bytes); concrete twin in harness/ref.py used by the replays',
@@ -81,7 +82,7 @@ def decode(pick, enc, hexbm, cfgs=None):
                 require(isinstance(got, (int, SInt)) and not isinstance(got, bool), '%s is not a number' % e.key, key='C02/decode-value', replay=rp)
                 require(s_eq(got, e.expect), '%s differs from the value on the wire' % e.key, key='C02/decode-value', replay=rp)
             elif e.kind == 'date':
-                require(got is e.expect, '%s differs' % e.key, key='C02/decode-value', replay=rp)
+                require(models.dates_equal(got, e.expect), '%s differs' % e.key, key='C02/decode-value', replay=rp)
             else:
                 req_eq(got, e.expect, '%s differs from the value on the wire' % e.key, key='C02/decode-value', replay=rp)
             expect_keys.add(e.key)
@@ -101,6 +102,35 @@ def decode(pick, enc, hexbm, cfgs=None):
         extra = [k for k in d if k not in expect_keys]
         require(not extra, 'decoded message has entries that an independent reading does not: %s' % extra, key='C02/decode-extra', replay=rp)
         return {'sample': {'bits': bits, 'enc': enc, 'keys': sorted(d)}, 'replay': rp()}
+    return h
+
+
+NUMTEXT_CFG = {'5': {'field_type': 'LLVAR', 'field_length': 0, 'field_python_type': 'int'},
+               '6': {'field_type': 'FIXED', 'field_length': 3, 'field_python_type': 'long'},
+               '4': {'field_type': 'FIXED', 'field_length': 12, 'field_python_type': 'int'}}
+
+
+def numeric_text(enc, hexbm):
+    """numbers handed over as text of decimal digits (as the CSV tools do): the value counts, not its spelling --
+    leading zeros beyond the field width, short spellings, zero"""
+    def h():
+        from . import ref
+        iso = M().iso8583
+        custom = choose('cfg', [False, True])
+        cfgs = NUMTEXT_CFG if custom else bit_config()
+        nbits = sorted(int(k) for k, v in cfgs.items() if v.get('field_python_type') in ('int', 'long'))
+        b = choose('bit', nbits)
+        w = cfgs[str(b)]['field_length'] or 6
+        fam = ['0', '7', '007', '0' * (w + 4) + '1234'[:max(1, min(4, w))], '9' * w, '0' * w, '00' + '9' * w]
+        v = choose('text', sorted(set(fam)))
+        msg = {'MTI': '1240', 'DE%d' % b: v}
+        rp = {'kind': 'encode', 'args': {'msg': msg, 'enc': enc, 'hexbm': hexbm, 'cfg': cfgs if custom else 'packaged'}}
+        core.set_fallback(rp, 'C02/concretised')
+        want = ref.ref_encode(msg, cfgs, enc, hexbm)
+        with guard('dumps', 'C02/refused', rp):
+            got = iso.dumps(dict(msg), encoding=enc, hex_bitmap=hexbm, iso_config=cfgs if custom else None)
+        require(got == want, 'number given as text %r is not rendered as its value zero-padded to the field width' % v, key='C02/layout', replay=rp)
+        return {'sample': {'bit': b, 'text': v}, 'replay': rp}
     return h
 
 
@@ -166,4 +196,8 @@ def obligations(tier):
     for enc in (('latin_1', 'cp500') if q else CODECS):
         obs.append(Ob('dec/de43-family/%s' % enc, de43_plumbing(enc), 120,
                       'DE43 from a concrete family of merchant strings (blank-padded, right-aligned, all-blank postcode, no match), alone or next to another element', _funcs))
+    for enc, hexbm in ((('latin_1', False), ('cp500', True)) if q else [(e, hb) for e in CODECS for hb in (False, True)]):
+        obs.append(Ob('numeric-text/%s/%s' % (enc, 'hex' if hexbm else 'bin'), numeric_text(enc, hexbm), 300,
+                      'every numeric element (packaged and a custom configuration with FIXED and LLVAR numbers) x a family of digit strings '
+                      '(zero, short spellings, leading zeros beyond the field width, all nines)', _funcs))
     return obs
